@@ -381,11 +381,11 @@ var diffFams = [...]int{famAnnotation, famEnv, famMount, famDevice, famCDI, famR
 //verif:expect-cover compared
 func H_C03_diff2q() { rhDiffRun(diffFams[instance()], []int{1, 1}, 3) }
 
-// H_C03_diff2bq: two plugins (<=2 and <=1 items), list families (env, mounts, devices, args)
+// H_C03_diff2bq: two plugins (<=2 and <=1 items), list families (mounts, devices, args)
 //verif:property C03
 //verif:instances 20
 //verif:tier quick
-//verif:quick-instances 1 2 3 8
+//verif:quick-instances 2 3 8
 //verif:cut (*github.com/containerd/nri/pkg/runtime-tools/generate.Generator).sortMounts => verifNoSort
 //verif:replay-with-cuts
 //verif:expect-cover compared
@@ -427,11 +427,11 @@ func H_C03_diff3() { rhDiffRun(diffFams[instance()], []int{1, 1, 1}, 3) }
 //verif:expect-cover compared
 func H_C04_view2q() { rhDiffRun(diffFams[instance()], []int{1, 1}, 4) }
 
-// H_C04_view2bq: two plugins (<=2 and <=1 items), list families
+// H_C04_view2bq: two plugins (<=2 and <=1 items), mounts, devices, args
 //verif:property C04
 //verif:instances 20
 //verif:tier quick
-//verif:quick-instances 1 2 3 8
+//verif:quick-instances 2 3 8
 //verif:cut (*github.com/containerd/nri/pkg/runtime-tools/generate.Generator).sortMounts => verifNoSort
 //verif:replay-with-cuts
 //verif:expect-cover compared
